@@ -132,6 +132,8 @@ def _case(draw):
                 mp_ = mpaths[draw(st.integers(0, len(mpaths) - 1))]
                 tgt = _get(older, mp_)
                 ks = [k for k, _ in tgt['items']] + [draw(st.sampled_from(KEYS))]
+                if list(path[:len(mp_)]) == mp_ and len(path) > len(mp_):
+                    ks = [k for k in ks if k != path[len(mp_)]] or ['zq']       # never overwrite the mapping the focus path runs through
                 chosen = draw(st.lists(st.sampled_from(ks), min_size=1, max_size=2, unique=True))
                 case['mid'] = {'path': mp_, 'items': [[k, 50 + i] for i, k in enumerate(chosen)]}
     elif mode == 'c':
